@@ -1,154 +1,90 @@
 """C01 -- trust-region minimizer: descent along accepted iterates, honest success flag.
 
-  D1  success flag only from the convergence test, on the returned point, on its own gradient, with a
-      tolerance comparison of matching homogeneity; parameters assigned before the solve (and after the
-      warm start) in nonlinear_equation_solve; the flag returned to the caller is the solver's flag;
-  D2  descent (default mode): acceptance implies ratio >= c >= 0; on every definition of the ratio the
-      denominator is >= 0 on the paths where it is used; the numerator is -(value(x+step) - o) with `o`
-      fresh for the current iterate; the accepted point is x + that very step;
-  D3  reported/returned iterate: accepted iterates go to the callback; every exit returns the iterate
-      state variable or the just-reported successful point;
-  D4  NaN polarity: a NaN ratio rejects the step and shrinks the radius.
+Decided on the symbolic paths of the driver (rules/C01_symx.py: path-enumerating symbolic execution with exact polynomial values over
+opaque atoms, inlined helpers and closures, loops generalised by the relations every iteration keeps; rules/C01_tr.py: the obligations).
+Variables are found by role (what they hold, what they are passed to), never by name; a failed proof is a REFUTED obligation only when
+the two sides differ in known structure (if necessary after one more loop iteration), otherwise it is UNDECIDED.
+
+  D1  success flag only from the convergence test, on the returned point, on its own gradient, with a tolerance comparison of matching
+      homogeneity (an upper bound on a norm of the residual, false for NaN); in nonlinear_equation_solve objective.p is the requested p
+      whenever the solve starts and still the old p when the warm start runs; the flag returned to the caller is the solver's flag;
+      Objective.value / gradient / hessian_vec evaluate f / grad(f, 0) under the *current* self.p;
+      settings factories fill fields by name; the step labels that mean "on the boundary" are the ones is_on_boundary recognises;
+  D2  descent (default mode): every newly reported, non-converged iterate P is accepted on a path that decides ratio >= c >= 0, the sign
+      of the ratio's denominator is decided on that path, the numerator is -(value(P) - value(current iterate)) -- so the reference value
+      is fresh and the reported point is the trial point -- hence value(P) <= value(current);
+  D3  reported/returned iterate: in every loop the iterate variable is the last point handed to the callback; every new reported point is
+      the converged point or the iterate the solver goes on with; every exit returns the last reported point (the start point if none);
+  D4  NaN polarity: on every path where all comparisons on the reduction ratio are false, no step is accepted and the first change of
+      the radius multiplies it by a factor in [0, 1).
 Not decided: finiteness beyond D4, that convex problems do converge, uniqueness of the minimiser.
 """
 from __future__ import annotations
 
 import ast
 
-from optilint.cfg import cfg_of
-from optilint.model import dotted, FuncVal, ParamVal
 from optilint.core import Incomplete
-from . import trustregion as tr
+from . import C01_tr as tr
 from .common import src
 
 LEVEL = "other"
-RULE_TEXT = ("obligations = (return statement x guarded-success) + (definition of the reduction ratio x sign proof) + "
-             "(definition of the iterate x freshness/reporting) + NaN-polarity of acceptance and radius update + "
+RULE_TEXT = ("obligations = (exit of the driver x guarded-success / returned point) + (accepting paths x links of the descent proof) + "
+             "(loop x relations kept by every iteration: reported iterate, fresh reference value) + NaN-polarity of acceptance and radius update + "
              "parameter assignment ordering; distinct = distinct (rule, function, construct)")
-EXPLANATION = ("Path-sensitive static analysis (CFG dominators, reaching definitions with branch facts, sign and "
-               "NaN-polarity domains) of EquationSolver.trust_region_minimize / is_converged / nonlinear_equation_solve. "
-               "Proves for every path of the driver: a True flag is only returned behind the convergence test of the "
-               "returned point's own gradient; an accepted step has objective.value(x+d) - o <= 0 in default mode; "
-               "NaN ratios reject and shrink. Convergence behaviour and floating-point trajectories are not decided.")
+EXPLANATION = ("Path-enumerating symbolic execution (rules/C01_symx.py: exact polynomial values over opaque atoms, helpers / closures inlined, "
+               "per-path outcome sets {<0, =0, >0, NaN} of every decided comparison, loops generalised by the relations every iteration preserves) of "
+               "EquationSolver.trust_region_minimize / is_converged / nonlinear_equation_solve and of Objective's evaluation methods. "
+               "Proves for every symbolic path of the driver: a True flag is only returned behind the convergence test of the returned point's own "
+               "gradient; a newly reported iterate P satisfies objective.value(P) - objective.value(current) <= 0 in default mode (ratio >= c >= 0, sign of "
+               "the denominator decided on the path, numerator = -(value(P) - value(current))); every exit returns the last reported point; NaN ratios "
+               "reject and shrink. Convergence behaviour and floating-point trajectories are not decided.")
 
-DRV = tr.Driver("optimism.EquationSolver", "trust_region_minimize", "gradient", "C01")
 ES = "optimism.EquationSolver"
+T = "trust_region_minimize"
 
 
 def run(ctx):
     ctx.need_module(ES)
     ctx.need_module("optimism.Objective")
-    ctx.guard(tr.d1_flag, ctx, DRV)
-    ctx.guard(d1_params, ctx)
-    ctx.guard(d1_objective_methods, ctx)
-    ctx.guard(tr.d2_descent, ctx, DRV)
-    ctx.guard(tr.d3_reported, ctx, DRV)
-    ctx.guard(tr.d4_nan, ctx, DRV)
-    from .common import settings_wiring
-    ctx.guard(settings_wiring, ctx, "D1/T5-settings-wiring", ES)
-    ctx.guard(boundary_labels, ctx, "D1/T6-boundary-labels-recognised", ES, "solve_trust_region_minimization")
+
+    def driver_rules(levels):
+        """the obligations on the paths of the driver; levels: how far public helper functions are looked into (1: only those with at most
+        one branch point, 0: every loop-free one)"""
+        models = {}
+
+        def model(incremental):
+            if incremental not in models:
+                models[incremental] = tr.DriverModel(ctx, ES, T, incremental=incremental, levels=levels)
+            return models[incremental]
+
+        def both(fn, *a):
+            fn(ctx, model(False), *a)
+            fn(ctx, model(True), *a, tag="[incremental-mode]")
+        ctx.guard(both, tr.d1_flag)
+        ctx.guard(lambda: tr.d2_descent(ctx, model(False), ES))
+        ctx.guard(both, tr.d3_reported)
+        ctx.guard(both, tr.d4_nan, ES)
+
+    # cheap first: branching public helpers (dogleg_step, ...) stay opaque; only when something is not proved that way are they inlined too
+    start = len(ctx.obligations)
+    driver_rules((1,))
+    first = ctx.obligations[start:]
+    if any(o.verdict != "PROVED" for o in first):
+        del ctx.obligations[start:]
+        driver_rules((0,))
+        if any(o.rule.endswith(".anchor") and "too many symbolic paths" in o.detail for o in ctx.obligations[start:]):
+            del ctx.obligations[start:]
+            ctx.obligations.extend(first)
+    ctx.guard(tr.d1_conv, ctx, ES)
+    ctx.guard(tr.d1_params, ctx, ES, "nonlinear_equation_solve", T)
+    ctx.guard(tr.d1_objective_methods, ctx)
+    ctx.guard(tr.settings_wiring, ctx, "D1/T5-settings-wiring", ES)
+    ctx.guard(tr.boundary_labels, ctx, "D1/T6-boundary-labels-recognised", ES, "solve_trust_region_minimization")
     ctx.trust("IEEE-754: every ordered comparison with a NaN operand is false")
     ctx.trust("rho = N/M >= c >= 0 with M >= 0 implies N >= 0 (M = 0 gives +-inf or NaN; -inf and NaN fail rho >= c)")
+    ctx.trust("objective.value / objective.gradient are functions of the point and of objective.p only (update_precond / check_stability do not change them)")
     ctx.assume("default mode (settings.use_incremental_objective is False) for the descent clause, as in the property text")
-
-
-def d1_params(ctx):
-    rule = "D1/T2-parameters-before-solve"
-    def is_solve(n):
-        for c in ast.walk(n.ast):
-            if isinstance(c, ast.Call) and isinstance(c.func, ast.Name) and c.func.id == "solver_algorithm":
-                return True
-        return False
-    sc, cfg = tr.params_before_solve(ctx, rule, f"{ES}:nonlinear_equation_solve", 0, is_solve)
-    # the flag returned to the caller is the flag of that solve
-    for r in cfg.returns():
-        v = r.ast.value
-        ok = False
-        shown = src(v)
-        if isinstance(v, ast.Tuple) and len(v.elts) == 2 and isinstance(v.elts[1], ast.Name):
-            ds = cfg.reaching(r, v.elts[1].id)
-            if len(ds) == 1 and isinstance(ds[0].ast, ast.Assign) and isinstance(ds[0].ast.targets[0], ast.Tuple):
-                t = ds[0].ast.targets[0]
-                idx = [i for i, e in enumerate(t.elts) if isinstance(e, ast.Name) and e.id == v.elts[1].id]
-                ok = idx == [1] and is_solve(ds[0])
-        ctx.decide(rule, ok, sc, r.ast, construct="flag-is-solver-flag",
-                   detail="returned flag is the second result of the solver call",
-                   bad_detail=f"nonlinear_equation_solve returns `{shown}`; the flag is not the solver's own success flag")
-    # default solver is the trust-region minimizer
-    d = sc.default_of("solver_algorithm")
-    ok = isinstance(d, ast.Name) and d.id == "trust_region_minimize"
-    ctx.decide(rule, ok, sc, d, construct="default-solver", detail="default solver_algorithm is trust_region_minimize",
-               bad_detail=f"default solver_algorithm is `{src(d)}`")
-
-
-def d1_objective_methods(ctx):
-    """`gradient` / `value` used by the driver evaluate under the objective's *current* parameters."""
-    rule = "D1/T5-objective-uses-current-parameters"
-    cls = ctx.need("optimism.Objective:Objective")
-    table = {"value": "objective", "gradient": "grad_x", "hessian_vec": "hess_vec"}
-    for mname, attr in table.items():
-        m = ctx.need(f"optimism.Objective:Objective.{mname}")
-        rets = m.returns()
-        ok = len(rets) == 1 and isinstance(rets[0], ast.Call) and isinstance(rets[0].func, ast.Attribute) \
-            and rets[0].func.attr == attr and len(rets[0].args) >= 2 and src(rets[0].args[0]) == m.params()[1] \
-            and src(rets[0].args[1]) == "self.p"
-        ctx.decide(rule, ok, m, rets[0] if rets else None, construct=f"Objective.{mname}",
-                   detail=f"self.{attr}(x, self.p, ...)", bad_detail=f"Objective.{mname} returns `{src(rets[0]) if rets else '?'}`")
-    init = ctx.need("optimism.Objective:Objective.__init__")
-    want = {"objective": "jit(f)", "grad_x": "jit(grad(f, 0))"}
-    for st in ast.walk(init.node):
-        if isinstance(st, ast.Assign) and isinstance(st.targets[0], ast.Attribute) and st.targets[0].attr in want:
-            a = st.targets[0].attr
-            ctx.decide(rule, src(st.value) == want[a], init, st, construct=f"Objective.{a}",
-                       detail=f"self.{a} = {src(st.value)}",
-                       bad_detail=f"self.{a} = {src(st.value)}; expected {want[a]} (value and gradient of the same function w.r.t. x)")
-
-
-def boundary_labels(ctx, rule, module, producer):
-    """The trust-region radius is enlarged only after steps that `is_on_boundary` recognises.  The step-type labels are produced by
-    the inner solver: every label it attaches to a step that was projected onto the trust-region boundary must be recognised, and
-    no label of an interior step may be (otherwise the radius never grows / grows on interior steps and a convex problem far from
-    the start is not solved within the iteration budget)."""
-    from optilint.cfg import cfg_of
-    from .common import expand, src
-    prod = ctx.need(f"{module}:{producer}")
-    cons = ctx.need(f"{module}:is_on_boundary")
-    cfg = cfg_of(prod)
-    on_b, interior = set(), set()
-    for r in cfg.returns():
-        v = r.ast.value
-        if not isinstance(v, ast.Tuple) or len(v.elts) < 2:
-            continue
-        labels = [e.id for e in v.elts if isinstance(e, ast.Name) and e.id in prod.module.scope.bindings
-                  and isinstance(getattr(prod.module.scope.bindings[e.id][-1], "value", None), ast.Constant)
-                  and isinstance(prod.module.scope.bindings[e.id][-1].value.value, str)]
-        if not labels:
-            continue
-        first = v.elts[0]
-        pe = expand(cfg, r, first, depth=1) if isinstance(first, ast.Name) else first
-        projected = isinstance(pe, ast.Call) and "project" in (dotted(pe.func) or "") and "boundary" in (dotted(pe.func) or "")
-        (on_b if projected else interior).add(labels[0])
-    rets = cons.returns()
-    recog = set()
-    shape_ok = len(rets) == 1
-    if shape_ok:
-        par = cons.params()[0]
-        terms = rets[0].values if isinstance(rets[0], ast.BoolOp) and isinstance(rets[0].op, ast.Or) else [rets[0]]
-        for t in terms:
-            if isinstance(t, ast.Compare) and len(t.ops) == 1 and isinstance(t.ops[0], ast.Eq) and isinstance(t.left, ast.Name) and t.left.id == par \
-                    and isinstance(t.comparators[0], ast.Name):
-                recog.add(t.comparators[0].id)
-            else:
-                shape_ok = False
-    if not on_b:
-        ctx.undecided(rule, prod, None, construct="producer-labels", detail="no labelled boundary exits found in the inner solver")
-        return
-    ok = shape_ok and recog == on_b and not (recog & interior)
-    ctx.decide(rule, ok, cons, rets[0] if rets else None, construct=f"{module.split('.')[-1]}:is_on_boundary=={sorted(on_b)}",
-               detail=f"boundary exits are labelled {sorted(on_b)}, interior exits {sorted(interior)}; is_on_boundary recognises {sorted(recog)}",
-               bad_detail=f"{producer} labels its boundary-projected steps {sorted(on_b)} (interior: {sorted(interior)}) but is_on_boundary recognises "
-                          f"{sorted(recog)}: the trust region is not enlarged after {sorted(on_b - recog) or 'some'} steps, so a convex problem whose minimiser is far "
-                          f"from the start is not reached within the iteration budget")
+    ctx.assume("a callback is supplied (the reported sequence is what the callback sees); the exits and their flags do not depend on it")
 
 
 def variants(repo):
@@ -204,4 +140,9 @@ def variants(repo):
         Variant("alpha-rename is_converged", E, alpha_rename("is_converged"), None),
         Variant("alpha-rename nonlinear_equation_solve", E, alpha_rename("nonlinear_equation_solve"), None),
         Variant("commute operands", E, commute(T), None),
-    ]
+    ] + _extra()
+
+
+def _extra():
+    from .C01_variants import extra_variants
+    return extra_variants()
